@@ -11,6 +11,7 @@ code). Vocabulary (`names`, `distinctNames`, `wf`) and helper lemmas:
 import XsdataModel.Gen.Occurs
 import XsdataModel.Proofs.OccursBasic
 import XsdataModel.Proofs.OccursSound
+import XsdataModel.Proofs.OccursList
 
 namespace Props.C02
 open Py Xs.Gen
@@ -89,6 +90,21 @@ example : List.count ['a'] [['a'], ['b']] = 1 :=
   required_sound exP (by decide) (by decide) _ exP_matches _ exP_occurs
     { name := ['a'], index := 0, min := 1, max := 1, path := [⟨.s, 1, 1, 1⟩],
       choice := none, sequence := some 1 } (by decide) (by decide) (by decide)
+
+/-- **Converse sanity — list fields are needed**: if the occurrence ranges are non-empty (`wf`)
+and every choice has at least one alternative (`live`; otherwise the language may be empty),
+a field the generator makes a list does occur twice in some word of the content model. -/
+theorem list_needed (p : Particle) (hd : distinctNames p = true) (hwf : wf p = true)
+    (hlive : live p = true)
+    (ss : List Site) (h : occurs (sites p) = some ss) (s : Site) (hs : s ∈ ss)
+    (hl : s.isList = true) : ∃ w, Matches p w ∧ 2 ≤ w.count s.name :=
+  list_needed_core p (of_decide_eq_true hd) hwf hlive ss h s hs hl
+
+/-- the hypotheses are satisfiable: field `c` of the running example -/
+example : ∃ w, Matches exP w ∧ 2 ≤ w.count ['c'] :=
+  list_needed exP (by decide) (by decide) (by decide) _ exP_occurs
+    { name := ['c'], index := 2, min := 0, max := maxsize, path := [⟨.s, 1, 1, 1⟩, ⟨.c, 2, 0, 1⟩],
+      choice := some 2, sequence := some 1 } (by decide) (by decide)
 
 /-! ## 2. the full statement fails: two sites with the same name -/
 
